@@ -202,11 +202,17 @@ func runC15(ch chooser.Chooser, st *Stats) *Outcome {
 	out.Trace = func() any { return map[string]any{"config": cfg, "ops_per_thread": ops, "schedule": out.schedule} }
 	if dirtyGets > 0 {
 		st.Inc("probe:pool_returned_used_object", int64(dirtyGets))
+		st.Inc("fault:pool_handed_out_a_used_object", int64(dirtyGets))
+	}
+	st.Inc("fault:pool_dropped_object_on_put", int64(poolDrops))
+	if cfg.Dirty {
+		st.Inc("fault:pools_left_dirty_before_the_workload", 1)
 	}
 	if res.Switches > 0 {
 		st.Inc("probe:context_switch_inside_quote_or_split", 1)
 	}
 	st.Inc("sched:threads_detached", int64(res.Detached))
+	st.Inc("fault:preemptive_context_switch_at_a_yield_point", int64(res.Switches))
 	if v := schedViolation(res); v != nil {
 		out.Violation = v
 		return out
